@@ -19,7 +19,9 @@ def compare_rows(expected, stdout, sep=b"\n", ascii_mode=True, order=True):
     # defect model: astral-escape (only in ASCII mode, only if an astral character is involved)
     if ascii_mode and any(jm.has_astral(e) for e in expected):
         try:
-            rows2 = jm.read_rows(stdout, sep, lone_surrogates=True)
+            # (two member names that differ only in "astral character" vs "BMP character + hex digit" are printed alike under
+            # this defect: the model merges them the same way, first position, last value)
+            rows2 = jm.read_rows(stdout, sep, lone_surrogates=True, merge_duplicates=True)
         except jm.JsonError:
             rows2 = None
         if rows2 is not None and len(rows2) == len(expected):
